@@ -35,6 +35,10 @@ def mc(ctx, failed, module, cfg, name, **kw):
 
 
 def close(ctx, failed):
+    byk = {}
+    for key, _cl, _path in ctx.violations:
+        byk[key] = byk.get(key, 0) + 1
+    ctx.extra["violations_by_key"] = byk
     if ctx.drift and not ctx.violations:
         ctx.note("STEP-MODEL DRIFT on %d observed cases although no property clause failed: the code no longer "
                  "follows the algorithm model, so the exhaustive result of M does not transfer - look at the DRIFT "
